@@ -18,6 +18,7 @@ from pathlib import Path
 from collections import OrderedDict  # TODO: replace by dict
 
 from resolva import Resolver
+from resolva.utils import ResolvaException
 
 from spil.util.caching import lru_kw_cache as cache
 from spil.util.log import debug
@@ -56,11 +57,25 @@ def path_to_dict(
     pc = get_path_config(config)
     r = Resolver.get(pc.name)
 
-    if _type:
-        data = r.resolve_one(path, _type)
-        template = _type
-    else:
-        template, data = r.resolve_first(path)
+    try:
+        if _type:
+            data = r.resolve_one(path, _type)
+            template = _type
+        else:
+            template, data = r.resolve_first(path)
+    except ResolvaException as e:
+        # A placeholder that the template repeats (eg. in directory and file name) carries different values.
+        # This template does not match: we look for another one that does.
+        debug(f'Path "{path}" has inconsistent values for a repeated field ({e})')
+        template, data = None, None
+        for label in ([] if _type else r.get_labels()):
+            try:
+                data = r.resolve_one(path, label)
+            except ResolvaException:
+                continue
+            if data:
+                template = label
+                break
 
     if not data:
         return None, None
